@@ -221,7 +221,18 @@ def run_smtp_case(case):
 
 STAGES_CONN = ['banner', 'EHLO', 'HELO', 'STARTTLS', 'EHLO2', 'AUTH']
 STAGES_MSG = ['MAIL', 'RCPT0', 'RCPT1', 'RCPT2', 'DATA', 'EOD', 'EOD0', 'EOD1', 'EOD2', 'RSET', 'QUIT']
-OUTCOMES = ['4xx', '5xx', '552', '421', 'malformed', 'badcode', 'disconnect', 'reset']
+OUTCOMES = ['4xx', '5xx', '552', '421', 'malformed', 'badcode', 'disconnect', 'reset', '354', '150']
+
+
+def odd_code_ok(stage, outc):
+    """Replies of class 1xx / 3xx are only scripted where they decide about acceptance (MAIL, RCPT, end of data; 150 for DATA):
+    elsewhere the protocol leaves open what they mean."""
+    if outc not in ('354', '150'):
+        return True
+    st_ = stage.split(':')[-1]
+    if st_ == 'DATA':
+        return outc == '150'
+    return st_ == 'MAIL' or st_.startswith('RCPT') or st_.startswith('EOD')
 
 
 def smtp_table():
@@ -238,6 +249,8 @@ def smtp_table():
                     if stage.startswith('EOD') and stage != 'EOD' and int(stage[3:]) >= n:
                         continue
                     for outc in OUTCOMES:
+                        if not odd_code_ok(stage, outc):
+                            continue
                         base = {'kind': kind, 'pipelining': pipelining, 'nrcpt': n, 'starttls': stage in ('STARTTLS', 'EHLO2'),
                                 'tls_required': stage == 'STARTTLS' and outc in ('4xx', '5xx'),
                                 'auth': stage == 'AUTH'}
@@ -280,10 +293,12 @@ def smtp_random(draw):
         stage = draw(st.sampled_from(stages))
         if draw(st.booleans()):
             stage = 'm%d:%s' % (draw(st.integers(0, 1)), stage) if stage in STAGES_MSG else stage
-        script[stage] = draw(st.sampled_from(OUTCOMES + ['4xx', '5xx', '500']))
+        outc = draw(st.sampled_from(OUTCOMES + ['4xx', '5xx', '500']))
+        script[stage] = outc if odd_code_ok(stage, outc) else '4xx'
     script2 = {}
     if draw(st.booleans()):
-        script2[draw(st.sampled_from(stages))] = draw(st.sampled_from(OUTCOMES))
+        stage2, outc2 = draw(st.sampled_from(stages)), draw(st.sampled_from(OUTCOMES))
+        script2[stage2] = outc2 if odd_code_ok(stage2, outc2) else '5xx'
     return {'kind': kind, 'pipelining': draw(st.booleans()), 'nrcpt': n, 'starttls': draw(st.booleans()),
             'tls_required': draw(st.booleans()), 'auth': draw(st.booleans()), 'reuse': draw(st.booleans()),
             'multiline': draw(st.booleans()), 'chunks': draw(st.sampled_from([None, [1], [3, 7]])),
@@ -457,7 +472,7 @@ def replay(case):
         case['nrcpt'] = max(1, min(3, int(n))) if not isinstance(n, list) else [max(1, min(3, int(x))) for x in n]
         scripts = []
         for s in case['scripts']:
-            scripts.append(dict((k, v) for k, v in (s or {}).items() if v in OUTCOMES + ['500', '2xx', '251', '252']))
+            scripts.append(dict((k, v) for k, v in (s or {}).items() if v in OUTCOMES + ['500', '2xx', '251', '252'] and odd_code_ok(k, v)))
         case['scripts'] = scripts or [{}]
         f, _ = run_smtp_case(case)
         return f
